@@ -128,16 +128,27 @@ type Mismatch struct {
 	Detail  string `json:"detail"`
 }
 
-// readAll reads a bucket through Iter, returning sorted pairs and whether a
-// key was yielded twice.
-func readAll(b chain.DBBucket) (pairs [][2]string, dup bool) {
+// readAll reads a bucket through Iter, returning sorted pairs, whether a
+// key was yielded twice, and whether a yielded key or value changed after it
+// was handed out (a consumer that collects the yielded slices and looks at
+// them when the loop is over - with no database operation in between - has to
+// find what it was given).
+func readAll(b chain.DBBucket) (pairs [][2]string, dup bool, aliased string) {
 	seen := map[string]bool{}
+	var held [][2][]byte
 	for k, v := range b.Iter() {
 		if seen[string(k)] {
 			dup = true
 		}
 		seen[string(k)] = true
 		pairs = append(pairs, [2]string{string(k), string(v)})
+		held = append(held, [2][]byte{k, v})
+	}
+	for i := range held {
+		if string(held[i][0]) != pairs[i][0] || string(held[i][1]) != pairs[i][1] {
+			aliased = fmt.Sprintf("entry %d was yielded as %q=%q, the collected slices read %q=%q after the loop", i, pairs[i][0], pairs[i][1], held[i][0], held[i][1])
+			break
+		}
 	}
 	sort.Slice(pairs, func(i, j int) bool {
 		if pairs[i][0] != pairs[j][0] {
@@ -168,8 +179,11 @@ func Compare(db chain.DB, view map[string]map[string]string, buckets, keys []str
 		}
 		// bucket handles are re-fetched per operation, as DBStore does
 		b = db.Bucket([]byte(bn))
-		pairs, dup := readAll(b)
+		pairs, dup, aliased := readAll(b)
 		wp := ref.Pairs(want)
+		if aliased != "" {
+			return "iter-yields-shared-memory", fmt.Sprintf("bucket %q: %s", bn, aliased)
+		}
 		if dup {
 			return "iter-duplicate", fmt.Sprintf("bucket %q Iter yielded a key twice: %v", bn, pairs)
 		}
